@@ -7,4 +7,8 @@ CLAIMED = {
   technique="TLA+ spec (Ring.tla, Cyclic.tla) model-checked by TLC; TLC state-graph edge cover replayed on the real rings; recorded traces validated by TLC trace specs",
   text="TLC checks the ring specification (reference FIFO + index arithmetic refinement, accessor laws) over all reachable states for sizes 2..5 (2..8 thorough); every edge of the state graph is replayed on ring_head, ring<char>, ring<int>, and every recorded event (ret, data, fill/free counts, index range, guard bytes) is judged by the trace specification; random scripts cover sizes up to 33 and all byte values.",
   note=NOTE),
+ "C01": dict(
+  technique="TLA+ spec (Lists.tla: reference cycles + transcribed pointer updates; SHList.tla) model-checked by TLC; state-graph edge cover replayed on real C/C++ dlist, slist, hlist; traces validated by TLC",
+  text="TLC checks for all histories over 2 heads x 3 nodes (2-3 heads x 4 nodes thorough), both flavours, that the transcribed four-pointer updates implement the reference list semantics (forward = reference, backward = reverse, neighbours point back, removed cells unreachable, unlinked cells self-linked); every edge of that graph is replayed on the real lists and every observation (iterator traversals both ways, size, empty, is_linked, dlist_in, raw next/prev) is judged by the trace spec; random scripts reach 3 heads x 8 nodes.",
+  note=NOTE),
 }
